@@ -13,7 +13,7 @@ from vlib import progspace as ps
 LEVEL = "exploration"
 RULE = ("A: every program of the C01 space (AST size <= S, three function kinds, all decision paths) observed at every "
         "suspension after set_trickery_enabled(False): truly active managers must be an in-order subsequence of the report with "
-        "right obj/is_async, an is_exiting entry iff an exit is in progress, extras only the manager being entered/exited. "
+        "right obj/is_async, an is_exiting entry iff an exit is in progress, extras only the manager being entered/exited; bodies of size <= 3 also with one re-entrant manager object per kind serving every with-block (the same object then is active several times in a frame). "
         "B: for a corpus of programs/positions, an exception raised by a trace function at the n-th line event inside "
         "stackscope's trickery analysis for EVERY n (found by counting a fault-free run): must produce an InspectionWarning, no "
         "exception, and a result meeting the same over-approximation. C: every sequence of length <= 4 over "
